@@ -80,6 +80,10 @@ def build_file(fa, rng, case, recs, how, intervals=None):
     fa.writer(fo, copy.deepcopy(js), list(recs), codec=codec, sync_interval=interval)
     data = fo.getvalue()
     cont = RK.parse(data)
+    # expected records as the independent parser reads the complete file (the
+    # writer may legitimately pick another conforming branch than the model,
+    # e.g. bytes under an array branch, A17)
+    expected = [RB.to_py(node, t) for t in RK.records(cont, node)]
     return data, cont.boundaries, expected, [b.count for b in cont.blocks], codec
 
 
